@@ -87,9 +87,9 @@ def grep_gate():
 
 # which theorem files (and which theorems in them) are the proof obligations of each property
 PROPS = {
-    "C01": [("Rank.v", r"^C01_"), ("Instance.v", r"^I_C01_|^I_a_quantile|^I_a_rank"), ("Refine.v", r"Rf_plain_quantile|Rf_executable_quantile|Rf_plain_add"), ("Rounding.v", r"R_rnd64_rndQ|R_rndQ_mono|R_rndQ_int|R_q2f_correct"), ("Bridge.v", r"Bridge_C01_|Bridge_snapped|Bridge_index_|Bridge_gmap|Bridge_q2f"), ("GlueAcc.v", r"value_accuracy"), ("GlueCtor.v", r"end_to_end|accuracy|ideal"), ("GlueLog.v", r"end_to_end|accuracy|ideal"), ("GlueCub.v", r"end_to_end|accuracy|ideal")],
+    "C01": [("Rank.v", r"^C01_"), ("Instance.v", r"^I_C01_|^I_a_quantile|^I_a_rank"), ("Refine.v", r"Rf_plain_quantile|Rf_executable_quantile|Rf_plain_add"), ("Rounding.v", r"R_rnd64_rndQ|R_rndQ_mono|R_rndQ_int|R_q2f_correct"), ("Bridge.v", r"Bridge_C01_|Bridge_snapped|Bridge_index_|Bridge_gmap|Bridge_q2f"), ("GlueAcc.v", r"value_accuracy"), ("GlueCtor.v", r"end_to_end|accuracy|ideal"), ("GlueLog.v", r"end_to_end|accuracy|ideal"), ("GlueCub.v", r"end_to_end|accuracy|ideal"), ("GlueHi.v", r"end_to_end|accuracy|full|bridge")],
     "C02": [("Sketch.v", r"^C02_"), ("LayerA.v", r"^A3_"), ("Refine.v", r"Rf_st_merge|Rf_sk_merge|Rf_sketch_history"), ("Misc.v", r"^GRID_"), ("Bridge.v", r"Bridge_C02_|Bridge_observers|Bridge_a_run")],
-    "C03": [("C03.v", r"."), ("Glue.v", r"."), ("GlueAcc.v", r"."), ("GlueCtor.v", r"."), ("GlueLog.v", r"."), ("GlueCub.v", r"."), ("Bridge.v", r"Bridge_index_|Bridge_gmap|Bridge_gm_checkb")],
+    "C03": [("C03.v", r"."), ("Glue.v", r"."), ("GlueAcc.v", r"."), ("GlueCtor.v", r"."), ("GlueLog.v", r"."), ("GlueCub.v", r"."), ("GlueHi.v", r"."), ("Bridge.v", r"Bridge_index_|Bridge_gmap|Bridge_gm_checkb")],
     "C04": [("C04dense.v", r"."), ("C04pag.v", r"."), ("C04pagloops.v", r"."), ("C04sparse.v", r"."), ("LayerA.v", r"^A[1-7]_"), ("Refine.v", r"^Rf_st_|^Rf_StInv"), ("Misc.v", r"^GRID_")],
     "C05": [("C05.v", r"."), ("LayerA.v", r"^A8_"), ("Sketch2.v", r"^C05_")],
     "C06": [("Wire.v", r"^C06_"), ("WireRaw.v", r"concat"), ("WireAny.v", r"^C06_"), ("WireAny2.v", r"^C06_x_")],
